@@ -332,6 +332,27 @@ def mon_final(tr):
     return None
 
 
+def mon_c05_sdsuppl(tr):
+    """C05, last clause of its first sentence: "ysd_vec holds the SDs the target reported for them [the observations in yval_vec] when noise is specified".
+    With exactly one final sample yval_vec is supplemented by the earlier observation at x; the SD paired with it must then be an SD the target reported AT x
+    (or the logger's SD of the row of x).  Kept apart from mon_c05 / mon_final: it is an OPEN KNOWN FINDING of the unchanged code (the code appends
+    function_logger.S[function_logger.Xn], the SD of the LAST logged row, whatever point that row holds) and must never hide another violation."""
+    E = endgame(tr)
+    if E is None or not E["spec"] or len(E["fcalls"]) != 1 or E["res"]["ysd_vec"] is None or len(E["res"]["ysd_vec"]) != 2:
+        return None
+    x, fin = E["res"]["x"], tr["final"]
+    at_x = [c["out"][2] for c in tr["calls"] if c["xo"] == x and c["out"] and c["out"][0] == "ok"]
+    if fin.get("logS"):
+        at_x += [sd for xo, sd in zip(fin["logXo"], fin["logS"]) if xo == x]
+    sup = E["res"]["ysd_vec"][1]
+    if sup not in at_x:
+        last = len(fin["logXo"]) - 1
+        return ("ysd-supplement-not-at-x", f"noise_final_samples = 1, specified noise: yval_vec is supplemented by the earlier observation at the returned x {x}, but the SD paired with it, "
+                                           f"ysd_vec[1] = {sup}, is none of the SDs reported / logged at x ({sorted(set(at_x))}); it is the SD of the last logged row {last}, "
+                                           f"the point {fin['logXo'][last]}")
+    return None
+
+
 # Which clauses of mon_final are claims of WHICH property's text (a hit is then a concrete violation of that property).  Every other clause restates a
 # rule of the model (when the end-game runs, that all four fields come from one row, the quantile rule, that the samples are not recorded, ...): a hit
 # there means the tie between model and code is broken - reported as a failed obligation `correspondence:final_rules`; the property's own monitors
@@ -432,6 +453,9 @@ def search_final(ctx, broken, mons, c19=False):
     if crashed:
         # not a violation of THIS property's text (valid problems must not crash: that is C09's claim); recorded so that the report says what happened
         ctx.notes.append(f"final search: {len(crashed)} directed runs crashed, e.g. {crashed[0]['spec']}: {crashed[0]['exc']}")
+        if not any(b[0] == "final_search:crash" for b in broken):
+            broken.append(("final_search:crash", f"{len(crashed)} of {len(specs)} directed runs of the tail crashed (not a clause of this property: reported without a failing input of it), "
+                           f"e.g. spec {crashed[0]['spec']}: {crashed[0]['exc'][0]}: {str(crashed[0]['exc'][1])[:160]} in {crashed[0]['exc'][2] if len(crashed[0]['exc']) > 2 else '?'}"))
     for mon in list(mons):
         if R.apply_monitor(ctx, out, mon) > 0:
             return True
